@@ -138,9 +138,13 @@ theorem countersOK_sound {ref : String} {cs : List String} (h : countersOK ref c
 a frame number travels from the search to the segment iterator (`fsg_hist_entry_t.frame` and its accessor,
 `seg_iter_t.sf/ef`, `acmod_t.output_frame`, `hmm_t.frame`) and every value the processing calls and
 `decoder_n_frames` return holds every value of the search's frame counter `fsg_search_t.frame` unchanged (and the
-marker `-1`); the counter `decoder_t.n_frame` holds every non-negative one.  So the frames the iterator reports are
-the frames of the history entries, for utterances of any length the search can count, as in the model (unbounded
-integers).  The widths are regenerated from the current headers on every run. -/
+marker `-1`); the counter `decoder_t.n_frame` holds every non-negative one.  This is a statement about the LISTED
+carriers only (the list is written by hand in tools/gen_segwidths.py and its completeness is trusted: locals, casts,
+return types of static functions and function parameters such as the `int32 frame` of `fsg_history_entry_add` are not
+enumerated; `fsg_seg_t.n_hist` / `cur`, which count history ENTRIES of one backtrace, are `int16` and outside the
+table: a result of more than 32 767 segments is outside what is shown here).  For the listed carriers a frame number
+of any utterance the search can count is stored unchanged, as in the model (unbounded integers).  The widths are
+regenerated from the current headers on every run. -/
 theorem C03_frame_integer_widths :
     (∃ rb, widthOf frameRef = some (rb, true) ∧ ∀ c ∈ frameCarriers, ∃ b, widthOf c = some (b, true) ∧
       ∀ q : Int, -((2 ^ (rb - 1) : Nat) : Int) ≤ q → q < ((2 ^ (rb - 1) : Nat) : Int) → cconvS b q = q) ∧
